@@ -158,6 +158,8 @@ def h_stream(g0: int, g1: int, g2: int, g3: int, d0: int, d1: int, d2: int, d3: 
     if c.get('g0_zero'):
         g0 = 0          # nothing depends on absolute time: the first arrival is the origin (w.l.o.g.)
     gaps, durs = [g0, g1, g2, g3][:n], [d0, d1, d2, d3][:n]
+    if c.get('last_dur_zero'):
+        durs[-1] = 0    # the duration of the last processing orders nothing
     try:
         log, overlaps, maxactive, result, arrivals = run_scenario(
             gaps, uids, durs, idle, limit, ties=[t0, t1, t2, t3, t4, t5], bookmarks=c.get('bookmarks', ()))
@@ -247,14 +249,14 @@ def obligations():
             obs.append(Ob('h_stream', {'uids': p, 'limit': limit}, tiers=('quick', 'thorough'),
                           timeout=300, twins=['all_processed'] + (['retire_eq'] if p == ['a', 'a'] and limit is None else [])))
     obs.append(Ob('h_stream', {'uids': ['a', 'a'], 'limit': None, 'bookmarks': [1]}, tiers=('quick', 'thorough'), timeout=300))
+    obs.append(Ob('h_stream', {'uids': ['a', 'b', 'c'], 'limit': 1, 'g0_zero': True, 'last_dur_zero': True}, tiers=('quick',), timeout=900))
     for p in pats3:
         for limit in (None, 1, 2):
             obs.append(Ob('h_stream', {'uids': p, 'limit': limit, 'g0_zero': True}, tiers=('thorough',), timeout=3400))
     for p in pats4:
         obs.append(Ob('h_stream', {'uids': p, 'limit': None, 'g0_zero': True}, tiers=('thorough',), timeout=3400))
-    for p in pats2:
-        obs.append(Ob('h_cancel', {'uids': p, 'limit': None}, tiers=('quick', 'thorough'), timeout=600,
-                      twins=['cancel_mid_stream']))
+    obs.append(Ob('h_cancel', {'uids': ['a', 'a'], 'limit': None}, tiers=('quick', 'thorough'), timeout=600, twins=['cancel_mid_stream']))
+    obs.append(Ob('h_cancel', {'uids': ['a', 'b'], 'limit': None}, tiers=('thorough',), timeout=1500, twins=['cancel_mid_stream']))
     for p in (['a', 'a', 'a'], ['a', 'b', 'a']):
         obs.append(Ob('h_cancel', {'uids': p, 'limit': None}, tiers=('thorough',), timeout=3000))
     for p in pats2:
